@@ -84,63 +84,52 @@ func checkC14(p *core.Program, r *core.Report) {
 	r.Check(okEsc, "R1", "flows.ContactQueryEscaping/strconv.Quote", p.Pos(esc.Pos()), "returns strconv.Quote(s)", "the escaping function for contact-query templates does not quote its argument with strconv.Quote (the reader unquotes with strconv.Unquote)")
 	// inside the evaluator: the escaping function is applied to every evaluated value — whether it runs depends only on
 	// escaping != nil, the token type and the error test of the value
-	if tpl := p.Method("excellent", "Evaluator", "Template"); tpl == nil {
-		r.Errorf("excellent.Evaluator.Template not found")
-	} else {
-		var escP *ssa.Parameter
-		for _, prm := range tpl.Params {
-			if strings.HasSuffix(core.ShortType(prm.Type()), "Escaping") || prm.Name() == "escaping" {
-				escP = prm
-			}
+	{
+		// wherever a value of type excellent.Escaping is called (the evaluator's per-token code, as a function literal
+		// or as a method the literal hands its arguments to)
+		isEscaping := func(t types.Type) bool {
+			n, ok := t.(*types.Named)
+			return ok && n.Obj().Name() == "Escaping" && n.Obj().Pkg() != nil && core.RelPkg(n.Obj().Pkg().Path()) == "excellent"
 		}
 		nEsc := 0
-		core.EachInstr(tpl, true, func(f *ssa.Function, in ssa.Instruction) {
-			ci, ok := in.(ssa.CallInstruction)
-			if !ok || escP == nil {
-				return
+		for _, fn := range p.ModuleFunctions() {
+			if core.RelPkg(core.FuncPkgPath(fn)) != "excellent" || p.IsTestFile(fn.Pos()) {
+				continue
 			}
-			// a call of the escaping parameter (possibly captured by the callback)
-			v := ci.Common().Value
-			isEsc := v == ssa.Value(escP)
-			if ld, ok := v.(*ssa.UnOp); ok {
-				if fv, ok := ld.X.(*ssa.FreeVar); ok && fv.Name() == escP.Name() {
-					isEsc = true
+			core.EachInstr(fn, false, func(f *ssa.Function, in ssa.Instruction) {
+				ci, ok := in.(ssa.CallInstruction)
+				if !ok || ci.Common().IsInvoke() || ci.Common().StaticCallee() != nil || !isEscaping(ci.Common().Value.Type()) {
+					return
 				}
-			}
-			if fv, ok := v.(*ssa.FreeVar); ok && fv.Name() == escP.Name() {
-				isEsc = true
-			}
-			if !isEsc || ci.Common().IsInvoke() {
-				return
-			}
-			nEsc++
-			extra := ""
-			for _, ce := range core.MayConds(in.Block()) {
-				benign := false
-				switch c := ce.Cond.(type) {
-				case *ssa.BinOp:
-					// escaping != nil, tokenType == K
-					if core.IsNilConst(c.X) || core.IsNilConst(c.Y) {
-						benign = true
+				nEsc++
+				extra := ""
+				for _, ce := range core.MayConds(in.Block()) {
+					benign := false
+					switch c := ce.Cond.(type) {
+					case *ssa.BinOp:
+						// escaping != nil, tokenType == K
+						if core.IsNilConst(c.X) || core.IsNilConst(c.Y) {
+							benign = true
+						}
+						if _, isC := core.ConstInt(c.Y); isC {
+							benign = true
+						}
+						if _, isC := core.ConstInt(c.X); isC {
+							benign = true
+						}
+					case *ssa.Call:
+						if o := core.CalleeObj(&c.Call); o != nil && core.ObjName(o) == "excellent/types.IsXError" {
+							benign = true
+						}
 					}
-					if _, isC := core.ConstInt(c.Y); isC {
-						benign = true
-					}
-					if _, isC := core.ConstInt(c.X); isC {
-						benign = true
-					}
-				case *ssa.Call:
-					if o := core.CalleeObj(&c.Call); o != nil && core.ObjName(o) == "excellent/types.IsXError" {
-						benign = true
+					if !benign {
+						extra = canonShort(ce.Cond) + " at " + p.Pos(ce.If.Pos())
 					}
 				}
-				if !benign {
-					extra = canonShort(ce.Cond) + " at " + p.Pos(ce.If.Pos())
-				}
-			}
-			r.Check(extra == "", "R1", "Evaluator.Template/escaping-applied-to-every-value", p.Pos(in.Pos()), "depends only on escaping != nil, the token type and the value not being an error",
-				"whether an evaluated value is passed through the escaping function also depends on "+extra+": a value skipped there is substituted into a contact query as zero tokens (or unescaped) instead of one literal")
-		})
+				r.Check(extra == "", "R1", "Evaluator.Template/escaping-applied-to-every-value", p.Pos(in.Pos()), "depends only on escaping != nil, the token type and the value not being an error",
+					"whether an evaluated value is passed through the escaping function also depends on "+extra+": a value skipped there is substituted into a contact query as zero tokens (or unescaped) instead of one literal")
+			})
+		}
 		r.Require("escaping_call_sites", nEsc, 1)
 	}
 	// evaluation sites of contact_query templates
